@@ -30,8 +30,8 @@ def resolve_axioms(names):
     C = _STATE['contracts']
     fs, assumed, lem = [], [], []
     for n in names:
-        if n in AX.GROUPS:
-            fs.extend(AX.GROUPS[n])
+        if n in AX.GROUPS or n == 'DICT_KEYS':
+            fs.extend(AX.group(n))
             assumed.append('axiom-group:' + n)
         elif n in C.LEMMAS:
             fs.extend(C.LEMMAS[n].axioms())
